@@ -442,6 +442,30 @@ def run_cast(ctx) -> RuleResult:
                         # the cast must be applied to every element (comprehension over the list)
                         if cast_ok and not isinstance(coeffs, (ast.ListComp, ast.List)):
                             cast_ok = isinstance(coeffs, ast.Call) and "astype" in text
+                    # the cast also makes the array the writer's own: astype(copy=False) / asarray hand the caller's buffer
+                    # through when the dtype already matches - the C writers take writable, contiguous memoryviews
+                    borrowed = None
+                    if cast_ok:
+                        for node in walk_shared(coeffs):
+                            if isinstance(node, ast.Call) and isinstance(node.func, ast.Attribute) and node.func.attr == "astype":
+                                cp = kwarg(node, "copy")
+                                if cp is not None and isinstance(cp, ast.Constant) and cp.value is False:
+                                    borrowed = "astype(..., copy=False)"
+                            if isinstance(node, ast.Call) and not is_S(node) and ctx.dotted(module, node.func) in (
+                                    "numpy.array", "numpy.asarray"):
+                                cp = kwarg(node, "copy")
+                                if cp is not None and isinstance(cp, ast.Constant) and cp.value in (False, None):
+                                    borrowed = "copy=False"
+                    if borrowed:
+                        result.ob(f"the cast in front of cfrom_attributes yields an array of its own [{' / '.join(trace)}]", False,
+                                  module.loc(step.orig), borrowed)
+                        result.add(Finding(
+                            "R-CAST", module, "polynomial_from_attributes", call,
+                            f"the cast in front of the raw C writer is spelled {borrowed}: when the dtype already matches, the "
+                            f"caller's own array is handed to the writer, whose typed memoryviews need a writable buffer - a "
+                            f"read-only coefficient array of a C-implemented dtype (frombuffer, broadcast_to, setflags(write=False)) "
+                            f"makes every construction and alignment raise",
+                            derivation=trace, construct="cfrom_attributes: cast without copy"))
                     result.ob(f"cfrom_attributes receives coefficients cast to the buffer dtype [{' / '.join(trace)}]",
                               cast_ok, module.loc(step.orig), text[:120])
                     if not cast_ok:
